@@ -115,6 +115,8 @@ func (t *ATable) AddSeparator() Table {
 	t.rows = append(t.rows, sep)
 	sep.inTable = t
 	sep.rowNum = len(t.rows)
+	// like any attached row, its errors (eg, misuse as a cell row) are the table's
+	sep.ErrorContainer = t.ErrorContainer
 	return t
 }
 
